@@ -11,6 +11,7 @@ import (
 	"strconv"
 	"strings"
 	"testing"
+	"time"
 
 	"verifharness/vlib"
 
@@ -30,12 +31,12 @@ type Op struct {
 }
 
 type Case struct {
-	Proto10 bool   `json:"http10"`
-	Close   bool   `json:"close"`      // Connection: close (1.1) / absence of keep-alive (1.0)
-	KeepAl  bool   `json:"keep_alive"` // Connection: keep-alive on 1.0
-	Post    bool   `json:"post"`
-	Ops     []Op   `json:"ops"`
-	FailAt  int    `json:"fail_write_at,omitempty"` // for C11 reuse: the k-th conn.Write fails
+	Proto10 bool `json:"http10"`
+	Close   bool `json:"close"`      // Connection: close (1.1) / absence of keep-alive (1.0)
+	KeepAl  bool `json:"keep_alive"` // Connection: keep-alive on 1.0
+	Post    bool `json:"post"`
+	Ops     []Op `json:"ops"`
+	FailAt  int  `json:"fail_write_at,omitempty"` // for C11 reuse: the k-th conn.Write fails
 }
 
 var inline = func(f func()) { f() }
@@ -262,6 +263,10 @@ func hdrString(h http.Header) string {
 }
 
 func runCase(c Case) vlib.Result {
+	return vlib.WithWatchdog(60*time.Second, "the response writer", func() vlib.Result { return runCaseInner(c) })
+}
+
+func runCaseInner(c Case) vlib.Result {
 	Tracker.Reset()
 	res := vlib.Result{}
 	wire, closed, ex, pn := Execute(c, Tracker)
